@@ -131,16 +131,27 @@ PROPS = {
     "C18": {
         "targets": ["spowtd.simulate_recession:compute_recession_curve", "lemma:shifted_sum",
                     "spowtd.specific_yield:SpecificYield.__call__",
-                    "spowtd.spline:Spline.__call__", "lemma:telescoping"],
+                    "spowtd.spline:Spline.__call__", "lemma:telescoping",
+                    "spowtd.simulate_recession:simulate_recession",
+                    "spowtd.simulate_recession:dump_simulated_recession#observations"],
         "bounded": [{"run": "bounded.simulate_checks:run_C18",
-                     "what": "bounded stand-in for the corollaries (direction, reversal, water balance at zero curvature), the mean, "
-                             "the ET query and the tabulated output of dump_simulated_recession (real functions, tables in a "
-                             "database built from the real schema, time-varying ET)"}],
+                     "what": "corollaries (direction, reversal, water balance at zero curvature), validation of the SQL contracts (the ET "
+                             "average over the recession intervals' steps) and of the assumed constructor contracts, and the tabulated "
+                             "(non --observations) output of dump_simulated_recession (real functions, tables in a database built from "
+                             "the real schema, time-varying ET)"}],
         "level_text": "Unbounded proof that compute_recession_curve returns values whose pairwise differences are Q(z_j) - Q(z_i), Q the "
                       "antiderivative (assumed contract of quad) of the function handed to quad, that this function equals "
-                      "Sy(z) / (-ET - curvature T(z)) at every level (ghost cut, real arithmetic) and that its denominator never "
-                      "vanishes. The command-level clauses (ET average, units and order of the table, mean) are a bounded stand-in.",
-        "level_note": "Assumed: quad returns the exact integral; transmissivity is any positive function; floats as reals.",
+                      "Sy(z) / (-ET - curvature T(z)) at every level (ghost cut, real arithmetic), that its denominator never "
+                      "vanishes, and that the mean is the requested one. At command level simulate_recession is under contract: "
+                      "the measured curve is returned unchanged, the simulated one lives on exactly those levels converted cm -> mm, "
+                      "has the mean of the measured elapsed times, curvature enters as m/km2 x 1e-3, the PEATCLSM transmissivity as "
+                      "m2/s x 86400, and every precondition of compute_recession_curve (positive transmissivity, non-negative ET and "
+                      "curvature, not both zero) is discharged at the call site; `simulate recession --observations` dumps exactly "
+                      "that curve from the highest level to the lowest. The tabulated output is a bounded stand-in.",
+        "level_note": "Assumed: quad returns the exact integral; create_specific_yield_function / create_transmissivity_function "
+                      "(constructors, PyYAML) return a specific-yield object over a non-degenerate spline / a positive function; the "
+                      "dataset precondition 'site curvature >= 0 and (curvature > 0 or mean ET > 0)'; the SQL statements (incl. what "
+                      "the ET average ranges over) through their contracts; floats as reals.",
     },
     "C15": {
         "targets": ["spowtd.transmissivity:SplineTransmissivity.conductivity", "spowtd.transmissivity:SplineTransmissivity.call_scalar",
